@@ -5,6 +5,9 @@ Core: the LAS data structure (`Model/TokenRing.lean`) under witnessed token pass
 The timed N-station composition is not proved (DESIGN 5.5).
 -/
 import ProfiVerif.Lemmas.TokenRing
+import ProfiVerif.Lemmas.Neighbours
+import ProfiVerif.Lemmas.AbstractRing
+import ProfiVerif.Props.C12
 
 namespace PV.C02
 open PV PV.TokenRing
@@ -118,11 +121,371 @@ theorem verification_restarts (r : TokenRing) (sa da : Nat) (hsa : sa ≤ 125) (
 theorem claim_valid (r : TokenRing) : r.claimToken.las = .valid ∧ ∀ a, r.claimToken.isActive a = r.isActive a := by
   simp [claimToken, isActive]
 
+
+/-! ## `neighbours`: NS / PS are the cyclic neighbours of TS in the LAS
+
+Specification (`Lemmas/Neighbours.lean`, independent of the model): `cycSucc ts L` = the smallest
+element of `L` above `ts`, else the smallest element of `L`, else `ts`; `cycPred` symmetrically —
+defined by `filter`/`min?`/`max?` on an arbitrary list, shown to depend on the *set* only
+(`cycSucc_congr`), to be insensitive to whether TS itself is listed (`cycSucc_cons_self`: neighbours in
+`S` = neighbours in `S ∪ {TS}`), and to be `S[(i±1) mod |S|]` for `ts = S[i]` in an ascending list.
+
+When are NS/PS recomputed in `token_ring.rs`?  `update_next_previous` runs at the end of
+`update_las_from_token_pass` (hence in `witness_token_pass` in Discovery, in Valid and on a failed
+verification, and in `set_next_station`) and of `remove_station`.  These are exactly the places where
+a LAS bit is written; the remaining paths (`new`, ignored passes, the phase changes of
+Uninitialized/Verification, `claim_token`) write neither the LAS nor NS/PS.  So NS/PS are **never
+stale relative to the LAS**: `Nbr` below is an invariant of every reachable state, not only of the
+states right after a recomputation.  What NS/PS can be is "stale relative to the bus": the LAS
+itself lags (a destination is entered only when it passes the token on, TS's own bit is cleared by
+a pass that skips TS), and the theorems say exactly "neighbours in the *current LAS*". -/
+
+/-- `update_next_previous` establishes the neighbour relation from **any** state (whatever NS/PS
+were), and so do the three operations that end in it. -/
+theorem neighbours_recomputed (r : TokenRing) :
+    Nbr (updateNextPrev r) ∧ (∀ sa da, Nbr (r.updateLas sa da)) ∧
+    (∀ a r', r.setNextStation a = some r' → Nbr r') ∧ (∀ a r', r.removeStation a = some r' → Nbr r') :=
+  ⟨updateNextPrev_nbr r, updateLas_nbr r, fun a r' => setNextStation_nbr r r' a,
+   fun a r' => removeStation_nbr r r' a⟩
+
+/-- Every public operation preserves it (in every LAS phase, including the passes that are ignored
+or only change the phase), and `new` establishes it. -/
+theorem neighbours_preserved (r : TokenRing) (h : Nbr r) :
+    (∀ sa da, Nbr (r.witness sa da)) ∧ Nbr r.claimToken ∧ (∀ ts, Nbr (TokenRing.new ts)) :=
+  ⟨fun sa da => witness_nbr r sa da h, claimToken_nbr r h, new_nbr⟩
+
+/-- **`neighbours`**: after *any* sequence of `witness_token_pass` / `claim_token` /
+`set_next_station` / `remove_station` calls on a fresh `TokenRing` of any own address (that did not
+panic), `next_station` is the cyclic successor and `previous_station` the cyclic predecessor of TS
+among the addresses currently in the LAS. -/
+theorem neighbours (ts : Nat) (ops : List Op) (r : TokenRing) (h : runOps (TokenRing.new ts) ops = some r) :
+    r.ts = ts ∧ r.ns = cycSucc ts r.activeList ∧ r.ps = cycPred ts r.activeList := by
+  have := runOps_nbr ops (TokenRing.new ts) r (new_nbr ts) h
+  have e : r.ts = ts := this.2
+  exact ⟨e, e ▸ this.1.1, e ▸ this.1.2⟩
+
+/-- The same, spelled out against LAS membership only (no list, no `min?`): if some active address
+lies above TS, NS is the least such; otherwise NS is the least active address; NS = TS if the LAS is
+empty.  Symmetrically for PS. -/
+theorem neighbours_char (r : TokenRing) (h : Nbr r) :
+    ((∃ a, r.isActive a = true ∧ r.ts < a) →
+        r.isActive r.ns = true ∧ r.ts < r.ns ∧ ∀ a, r.isActive a = true → r.ts < a → r.ns ≤ a) ∧
+    ((∀ a, r.isActive a = true → a ≤ r.ts) → (∃ a, r.isActive a = true) →
+        r.isActive r.ns = true ∧ ∀ a, r.isActive a = true → r.ns ≤ a) ∧
+    ((∀ a, r.isActive a = false) → r.ns = r.ts ∧ r.ps = r.ts) ∧
+    ((∃ a, r.isActive a = true ∧ a < r.ts) →
+        r.isActive r.ps = true ∧ r.ps < r.ts ∧ ∀ a, r.isActive a = true → a < r.ts → a ≤ r.ps) ∧
+    ((∀ a, r.isActive a = true → r.ts ≤ a) → (∃ a, r.isActive a = true) →
+        r.isActive r.ps = true ∧ ∀ a, r.isActive a = true → a ≤ r.ps) := by
+  have hs : IsCycSucc r.ts r.activeList r.ns := (isCycSucc_iff _ _ _).mpr h.1
+  have hp : IsCycPred r.ts r.activeList r.ps := (isCycPred_iff _ _ _).mpr h.2
+  have m := mem_activeList r
+  refine ⟨fun ⟨a, ha, hlt⟩ => ?_, fun hall ⟨a, ha⟩ => ?_, fun hno => ?_, fun ⟨a, ha, hlt⟩ => ?_, fun hall ⟨a, ha⟩ => ?_⟩
+  · have := hs.above ⟨a, (m a).mpr ha, hlt⟩
+    exact ⟨(m _).mp this.1, this.2.1, fun b hb => this.2.2 b ((m b).mpr hb)⟩
+  · have := hs.wrap (fun b hb => hall b ((m b).mp hb)) ⟨a, (m a).mpr ha⟩
+    exact ⟨(m _).mp this.1, fun b hb => this.2 b ((m b).mpr hb)⟩
+  · have hno' : ∀ a, a ∉ r.activeList := fun a ha => by
+      have := (m a).mp ha; rw [hno a] at this; cases this
+    exact ⟨hs.alone hno', hp.alone hno'⟩
+  · have := hp.below ⟨a, (m a).mpr ha, hlt⟩
+    exact ⟨(m _).mp this.1, this.2.1, fun b hb => this.2.2 b ((m b).mpr hb)⟩
+  · have := hp.wrap (fun b hb => hall b ((m b).mp hb)) ⟨a, (m a).mpr ha⟩
+    exact ⟨(m _).mp this.1, fun b hb => this.2 b ((m b).mpr hb)⟩
+
+/-- With LAS = ring `S`: NS/PS are the cyclic neighbours of TS in `S` (equivalently in `S ∪ {TS}`,
+`cycSucc_cons_self`); if TS is the `i`-th member of `S` they are the members `i+1` and `i-1` (mod |S|). -/
+theorem neighbours_ring (r : TokenRing) (S : List Nat) (hS : Ring S) (h : Nbr r) (hl : LasIs r S) :
+    r.ns = cycSucc r.ts S ∧ r.ps = cycPred r.ts S ∧
+    r.ns = cycSucc r.ts (r.ts :: S) ∧ r.ps = cycPred r.ts (r.ts :: S) ∧
+    ∀ i (hi : i < S.length), S[i] = r.ts →
+      r.ns = S[(i + 1) % S.length]'(Nat.mod_lt _ (by omega)) ∧
+      r.ps = S[(i + S.length - 1) % S.length]'(Nat.mod_lt _ (by omega)) := by
+  have hn := nbr_lasIs r S h hl hS.bound
+  refine ⟨hn.1, hn.2, by rw [cycSucc_cons_self]; exact hn.1, by rw [cycPred_cons_self]; exact hn.2, ?_⟩
+  intro i hi e
+  rw [hn.1, hn.2, ← e]
+  exact ⟨cycSucc_index S hS.asc i hi, cycPred_index S hS.asc i hi⟩
+
+/-- **`neighbours` after learning** (corollary of `las_learns`): a fresh station of *any* own address
+that has seen the wrap-around and two rotations of *any* ring `S` has NS/PS = its cyclic
+successor/predecessor in `S`; for a member `ts = S[i]` these are `S[i+1 mod |S|]` / `S[i-1 mod |S|]`. -/
+theorem neighbours_learned (ts : Nat) (S : List Nat) (hS : Ring S) (sa da : Nat) (hsa : sa ≤ 125) (hda : da ≤ 125)
+    (hwrap : da ≤ sa) :
+    let r3 := witnessAll (witnessAll ((TokenRing.new ts).witness sa da) (rotation S)) (rotation S)
+    r3.ns = cycSucc ts S ∧ r3.ps = cycPred ts S ∧
+    ∀ i (hi : i < S.length), S[i] = ts →
+      r3.ns = S[(i + 1) % S.length]'(Nat.mod_lt _ (by omega)) ∧
+      r3.ps = S[(i + S.length - 1) % S.length]'(Nat.mod_lt _ (by omega)) := by
+  intro r3
+  have hl := (las_learns ts S hS sa da hsa hda hwrap).2
+  have hnb : Nbr r3 := witnessAll_nbr _ _ (witnessAll_nbr _ _ (witness_nbr _ sa da (new_nbr ts)))
+  have hts : r3.ts = ts := by
+    show (witnessAll _ _).ts = ts
+    rw [witnessAll_ts, witnessAll_ts, witness_ts]; rfl
+  have := neighbours_ring r3 S hS hnb hl
+  rw [hts] at this
+  exact ⟨this.1, this.2.1, this.2.2.2.2⟩
+
+/-- **`neighbours` after a change** (corollary of `las_tracks` / `las_stable`): a station with a valid
+LAS (in any reachable state) that witnesses one full rotation of the — possibly changed — ring `S'`
+has NS/PS = its cyclic neighbours in `S'`. -/
+theorem neighbours_tracked (r : TokenRing) (S' : List Nat) (hS : Ring S') (hn : Nbr r) (hv : r.las = .valid) :
+    let r' := witnessAll r (rotation S')
+    r'.ns = cycSucc r'.ts S' ∧ r'.ps = cycPred r'.ts S' ∧
+    ∀ i (hi : i < S'.length), S'[i] = r'.ts →
+      r'.ns = S'[(i + 1) % S'.length]'(Nat.mod_lt _ (by omega)) ∧
+      r'.ps = S'[(i + S'.length - 1) % S'.length]'(Nat.mod_lt _ (by omega)) := by
+  intro r'
+  have hl := (las_tracks r S' hS hv).1
+  have := neighbours_ring r' S' hS (witnessAll_nbr _ _ hn) hl
+  exact ⟨this.1, this.2.1, this.2.2.2.2⟩
+
+
+/-! ## Abstract ring (DESIGN 5.5)
+
+`Model/AbstractRing.lean`: N stations, untimed, one atomic step per telegram.  **This part is an
+idealisation, not a model of existing code, and it is not tied to the implementation by a
+correspondence run** (the N-station behaviour of the code is tied by the `net` engine).  It
+documents why the mechanism works.  What it shares with the code-level models: every station's ring
+view is a real `TokenRing` changed only through `witness` / `setNextStation` / `removeStation` /
+`claimToken` / `new`, and the GAP cursor moves by the real `nextGapPoll`; the proofs below rest on
+`neighbours`, the LAS pass lemmas and the C12 sweep theorems. -/
+
+open PV.AbstractRing
+
+theorem Ring.isRing {S : List Nat} (h : Ring S) : IsRing S := ⟨h.ne, h.asc, h.bound⟩
+
+/-- **`token_unique`**: in every state reachable (by token passes incl. retries, GAP polls, dropping a
+dead successor, stations joining/leaving, a claim when nobody holds a token) from a state with at
+most one token holder, at most one station holds the token. -/
+theorem token_unique (s0 s : Net) (h0 : Unique s0) (hr : Reach s0 s) : Unique s :=
+  unique_reach s0 s h0 hr
+
+/-- **`agreement_invariant`**: once the members are exactly `M`, each with a valid LAS equal to `M`
+(and NS/PS derived from it), a token pass by the holder keeps all of that — for every station: the
+sender (witnesses its own pass), the receiver (takes the token from its PS without witnessing), every
+other member — and the new holder is the cyclic successor. -/
+theorem agreement_invariant (s : Net) (M : List Nat) (h : Nat) (ag : Agreed s M h) :
+    Step s (pass s h) ∧ Agreed (pass s h) M (cycSucc h M) := by
+  obtain ⟨nh, e, hm, _⟩ := agreed_holder_node s M h ag
+  exact ⟨Step.pass s h nh e hm, agreed_pass s M h ag⟩
+
+/-- **`ascending_rotation`**: in an agreeing ring the token visits the members in ascending cyclic
+address order: starting at the `i`-th member, after `k` passes it is at the `(i+k) mod |M|`-th member,
+agreement still holds, and the token telegrams on the bus were `M[i+j] → M[i+j+1]`, `j < k`. -/
+theorem ascending_rotation (s : Net) (M : List Nat) (i k : Nat) (ag : Agreed s M (nth M i)) :
+    Agreed (rotate s (nth M i) k).1 M (nth M (i + k)) ∧ (rotate s (nth M i) k).2.1 = nth M (i + k) ∧
+    (rotate s (nth M i) k).2.2 = (List.range k).map (fun j => (nth M (i + j), nth M (i + j + 1))) :=
+  agreed_rotate M k s i ag
+
+/-- … in particular one full rotation from the lowest address puts exactly `rotation M` on the bus —
+the pass sequence the LAS theorems (`las_learns`, `las_stable`, `las_tracks`) are about — and returns
+the token to the lowest address. -/
+theorem ascending_rotation_full (s : Net) (M : List Nat) (ag : Agreed s M (nth M 0)) :
+    (rotate s (nth M 0) M.length).2.2 = rotation M ∧ (rotate s (nth M 0) M.length).2.1 = nth M 0 ∧
+    Agreed (rotate s (nth M 0) M.length).1 M (nth M 0) := by
+  have := agreed_rotate M M.length s 0 ag
+  rw [Nat.zero_add, show nth M M.length = nth M 0 by simpa using nth_add_length M 0] at this
+  refine ⟨?_, this.2.1, this.1⟩
+  rw [this.2.2, rotation_eq_map M ag.ring.ne]
+  apply List.map_congr_left
+  intro j _
+  simp
+
+/-- The addresses a sweep polls before `a` come before `a` in the cyclic order behind TS. -/
+theorem sweep_prefix_before (ts ns hsa a : Nat) (hts : ts < hsa) (hh2 : hsa ≤ 126) (post : List Nat) :
+    ∀ (pre : List Nat) (fuel cur : Nat), cur < hsa → sweepFrom ts ns hsa fuel cur = pre ++ a :: post →
+      ∀ b ∈ pre, off ts hsa b < off ts hsa a := by
+  intro pre
+  induction pre with
+  | nil => intro _ _ _ _ b hb; cases hb
+  | cons c pre' ih =>
+    intro fuel cur hc hsw b hb
+    cases fuel with
+    | zero => simp [sweepFrom] at hsw
+    | succ f =>
+      unfold sweepFrom at hsw
+      cases hn : nextGapPoll ts ns hsa cur with
+      | poll x =>
+        rw [hn] at hsw
+        simp only [List.cons_append, List.cons.injEq] at hsw
+        have hx := C12.next_gap_in_gap ts ns hsa cur x (by omega) hh2 hc hn
+        rw [hsw.1] at hx
+        rw [hsw.1] at hsw
+        simp only [List.mem_cons] at hb
+        rcases hb with rfl | hb
+        · exact C12.sweep_ascending ts ns hsa hts hh2 f b hx.1 a (by rw [hsw.2]; simp)
+        · exact ih f c hx.1 hsw.2 b hb
+      | waiting => rw [hn] at hsw; simp at hsw
+      | panic => rw [hn] at hsw; simp at hsw
+
+/-- **`listener_admitted`** (general cursor).  Agreeing ring `M`, token at `h`; `a` is a ready listener
+that learned `M`.  If the rest of `h`'s current GAP sweep (iterated real `next_gap_poll` from its
+cursor) reaches `a` after the addresses `pre` and no station is present at those, then after `|pre|`
+further token visits at `h` (one GAP poll per visit, a full rotation in between — during which
+agreement, the listener's readiness and `h`'s NS are preserved) the next poll finds `a`: `h` makes it
+its NS by `set_next_station`, and `h`'s token pass gives `a` the token (it accepts: `h` is its PS). -/
+theorem listener_admitted_sweep (s : Net) (M : List Nat) (h a H : Nat) (pre post : List Nat) (g : Option Nat)
+    (fuel : Nat) (hH : H ≤ 126) (hh : h < H) (inv : SweepInv s M h h a pre g H) (hcur : g.getD h < H)
+    (hsw : sweepFrom h (cycSucc h M) H fuel (g.getD h) = pre ++ a :: post) :
+    let s1 := gapPoll (visits s h M.length pre.length) h
+    (∃ nh, s1.node h = some nh ∧ nh.mode = .hold ∧ nh.ring.ns = a) ∧
+    (∃ nh, (pass s1 h).node h = some nh ∧ nh.mode = .idle ∧ nh.ring.ns = a) ∧
+    (∃ na, (pass s1 h).node a = some na ∧ na.mode = .hold ∧ ViewOk M a na.ring) := by
+  have := listener_admitted_aux M h a H hH hh post pre fuel s g inv hcur hsw
+  exact ⟨this.2.2, this.1, this.2.1⟩
+
+/-- **`listener_admitted`**: a ready listener `a` that lies in the GAP of the member `h` (which then is
+its PS) and is the first station present in that GAP (in sweep order) is admitted within one sweep:
+starting from the beginning of `h`'s sweep, after `k` token visits at `h` with `k + 1 ≤ HSA - 1` polls
+in total, `h` has adopted `a` as NS and passed it the token. -/
+theorem listener_admitted (s : Net) (M : List Nat) (h a H : Nat) (g : Option Nat) (hH : H ≤ 126) (hh : h < H)
+    (ag : Agreed s M h) (hl : ReadyListener s M a) (hhsa : s.hsa = H)
+    (hgap : ∀ nh, s.node h = some nh → nh.gap = g) (hstart : g.getD h = h)
+    (hin : InGap h (cycSucc h M) H a)
+    (hfirst : ∀ b, InGap h (cycSucc h M) H b → off h H b < off h H a → s.node b = none) :
+    ∃ k, k + 1 ≤ H - 1 ∧
+      let s1 := gapPoll (visits s h M.length k) h
+      (∃ nh, s1.node h = some nh ∧ nh.mode = .hold ∧ nh.ring.ns = a) ∧
+      (∃ nh, (pass s1 h).node h = some nh ∧ nh.mode = .idle ∧ nh.ring.ns = a) ∧
+      (∃ na, (pass s1 h).node a = some na ∧ na.mode = .hold ∧ ViewOk M a na.ring) := by
+  have hmem : a ∈ sweepFrom h (cycSucc h M) H H h := (C12.sweep_exact h _ H hh hH a).mpr hin
+  obtain ⟨pre, post, hsw⟩ := List.append_of_mem hmem
+  have hlen := C12.sweep_length h (cycSucc h M) H hh hH H h hh
+  have hoff : off h H h = 0 := (off_zero_iff h H h hh hh).mpr rfl
+  have hbefore := sweep_prefix_before h (cycSucc h M) H a hh hH post pre H h hh hsw
+  have hsound := C12.sweep_sound h (cycSucc h M) H hh hH H h hh
+  have inv : SweepInv s M h h a pre g H :=
+    ⟨ag, hl, fun b hb => hfirst b (hsound b (by rw [hsw]; simp [hb])) (hbefore b hb), hgap, hhsa⟩
+  refine ⟨pre.length, ?_, ?_⟩
+  · rw [hsw] at hlen; simp at hlen; omega
+  · have hsw' : sweepFrom h (cycSucc h M) H H (g.getD h) = pre ++ a :: post := by rw [hstart]; exact hsw
+    exact listener_admitted_sweep s M h a H pre post g H hH hh inv (by omega) hsw'
+
+
+/-- **`admitted_agreement`** ("… and known to everybody one pass later"): in the situation of
+`listener_admitted_sweep`, once `a` has the token, its own pass to its NS — repeated once, because
+that NS does not yet know `a` as its PS, unless the NS is `h` itself (two-station ring), which adopted
+`a` already — leaves the enlarged ring `M' = M ∪ {a}` in full agreement: every member, the old ones
+and `a`, has a valid LAS equal to `M'` with NS/PS derived from it, and the NS of `a` holds the token.
+So `agreement_invariant` / `ascending_rotation` apply again with `M'`. -/
+theorem admitted_agreement (s : Net) (M M' : List Nat) (h a H : Nat) (pre post : List Nat) (g : Option Nat)
+    (fuel : Nat) (hH : H ≤ 126) (hh : h < H) (inv : SweepInv s M h h a pre g H) (hcur : g.getD h < H)
+    (hsw : sweepFrom h (cycSucc h M) H fuel (g.getD h) = pre ++ a :: post)
+    (hM' : Ring M') (hmem' : ∀ x, x ∈ M' ↔ x = a ∨ x ∈ M) :
+    let s2 := pass (gapPoll (visits s h M.length pre.length) h) h
+    (cycSucc h M = h → Agreed (pass s2 a) M' h) ∧
+    (cycSucc h M ≠ h → Agreed (pass (pass s2 a) a) M' (cycSucc h M)) := by
+  obtain ⟨g', inv', hp, hbt, _⟩ := sweep_reaches M h a H hH hh post pre fuel s g inv hcur hsw
+  exact admitted_agrees _ M M' h a (admitted_state _ M M' h a [] g' H inv' hbt hp hM'.isRing hmem')
+
+/-- **`listener_ready`** (link from the LAS theorems to the abstract ring): a fresh listener of any
+address that witnesses a wrap-around pass and then two full rotations of `M` — which is what an
+agreeing ring puts on the bus (`ascending_rotation_full`) — has exactly the knowledge
+`listener_admitted` asks of a ready listener (valid LAS = `M`, NS/PS derived from it). -/
+theorem listener_ready (a : Nat) (M : List Nat) (hM : Ring M) (sa da : Nat) (hsa : sa ≤ 125) (hda : da ≤ 125)
+    (hwrap : da ≤ sa) :
+    ViewOk M a (witnessAll (witnessAll ((TokenRing.new a).witness sa da) (rotation M)) (rotation M)) := by
+  have h := las_learns a M hM sa da hsa hda hwrap
+  refine ⟨?_, h.1, h.2, witnessAll_nbr _ _ (witnessAll_nbr _ _ (witness_nbr _ sa da (new_nbr a)))⟩
+  rw [witnessAll_ts, witnessAll_ts, witness_ts]; rfl
+
 /-! Non-vacuity: the two-station ring {3, 9} seen by station 7, and a one-station ring. -/
 example : Ring [3, 9] := ⟨by simp, by simp [Asc], by simp⟩
 example : Ring [0] := ⟨by simp, by simp [Asc], by simp⟩
 example : rotation [3, 9, 20] = [(3, 9), (9, 20), (20, 3)] := rfl
 example : (witnessAll (witnessAll ((TokenRing.new 7).witness 9 3) (rotation [3, 9])) (rotation [3, 9])).activeList = [3, 9] := by
   decide +kernel
+
+/-! Non-vacuity of `neighbours`: station 7 between 3 and 9; station 9 (last member) wraps to 3;
+a lone station; an address that is not a member. -/
+example : cycSucc 7 [3, 9, 20] = 9 ∧ cycPred 7 [3, 9, 20] = 3 := by decide
+example : cycSucc 20 [3, 9, 20] = 3 ∧ cycPred 3 [3, 9, 20] = 20 := by decide
+example : cycSucc 5 [5] = 5 ∧ cycPred 5 [] = 5 := by decide
+example : cycSucc 7 [20, 3, 9, 3] = 9 := by decide     -- order and repetitions are irrelevant
+example : runOps (TokenRing.new 7) [.witness 9 3, .witness 3 9, .witness 9 3, .claim, .remove 3] ≠ none := by
+  decide +kernel
+
+/-! Non-vacuity of the abstract-ring theorems: ring {3, 9} with the token at 3, a ready listener at 5,
+nothing at 4; HSA = 126.  The sweep of 3's GAP is 4, 5, …, 8: one absent address, then the listener. -/
+section AbstractExample
+
+private def learnedView (ts : Nat) : TokenRing :=
+  witnessAll (witnessAll ((TokenRing.new ts).witness 9 3) (rotation [3, 9])) (rotation [3, 9])
+
+private theorem ring39 : Ring [3, 9] := ⟨by simp, by simp [Asc], by simp⟩
+
+private theorem learnedView_ok (ts : Nat) : ViewOk [3, 9] ts (learnedView ts) :=
+  listener_ready ts [3, 9] ring39 9 3 (by omega) (by omega) (by omega)
+
+private def exNet : Net where
+  hsa := 126
+  node := fun x =>
+    if x = 3 then some { mode := .hold, ring := learnedView 3, gap := none, pend := none }
+    else if x = 9 then some { mode := .idle, ring := learnedView 9, gap := none, pend := none }
+    else if x = 5 then some { mode := .listen, ring := learnedView 5, gap := none, pend := none }
+    else none
+
+private theorem exNet_agreed : Agreed exNet [3, 9] 3 := by
+  refine ⟨ring39.isRing, by simp, fun x => ?_, fun x nx ex hm => ?_, fun x nx ex => ?_⟩
+  · by_cases h3 : x = 3
+    · subst h3; simp [exNet]
+    · by_cases h9 : x = 9
+      · subst h9; simp [exNet]
+      · by_cases h5 : x = 5
+        · subst h5; simp [exNet]
+        · simp [exNet, h3, h9, h5]
+  · by_cases h3 : x = 3
+    · subst h3
+      simp only [exNet, if_true, Option.some.injEq] at ex
+      subst ex
+      exact ⟨learnedView_ok 3, rfl⟩
+    · by_cases h9 : x = 9
+      · subst h9
+        simp only [exNet, if_neg h3, if_true, Option.some.injEq] at ex
+        subst ex
+        exact ⟨learnedView_ok 9, rfl⟩
+      · by_cases h5 : x = 5
+        · subst h5
+          simp only [exNet, if_neg h3, if_neg h9, if_true, Option.some.injEq] at ex
+          subst ex
+          exact absurd rfl hm
+        · simp [exNet, h3, h9, h5] at ex
+  · by_cases h3 : x = 3
+    · subst h3
+      simp only [exNet, if_true, Option.some.injEq] at ex
+      subst ex; simp
+    · by_cases h9 : x = 9
+      · subst h9
+        simp only [exNet, if_neg h3, if_true, Option.some.injEq] at ex
+        subst ex; simp
+      · by_cases h5 : x = 5
+        · subst h5
+          simp only [exNet, if_neg h3, if_neg h9, if_true, Option.some.injEq] at ex
+          subst ex; simp
+        · simp [exNet, h3, h9, h5] at ex
+
+example : Unique exNet := by
+  intro x y nx ny ex ey hx hy
+  rw [(exNet_agreed.holder x nx ex).mp hx, (exNet_agreed.holder y ny ey).mp hy]
+
+example : Agreed exNet [3, 9] (nth [3, 9] 0) := exNet_agreed
+
+private theorem exNet_listener : ReadyListener exNet [3, 9] 5 :=
+  ⟨by simp, ⟨{ mode := .listen, ring := learnedView 5, gap := none, pend := none }, by simp [exNet], rfl,
+    learnedView_ok 5⟩⟩
+
+example : cycSucc 3 [3, 9] = 9 ∧ InGap 3 9 126 5 ∧ sweepFrom 3 9 126 126 3 = [4] ++ 5 :: [6, 7, 8] := by decide
+
+example : SweepInv exNet [3, 9] 3 3 5 [4] none 126 :=
+  ⟨exNet_agreed, exNet_listener,
+   fun b hb => by simp at hb; subst hb; simp [exNet],
+   fun nh e => by simp only [exNet, if_true, Option.some.injEq] at e; subst e; rfl, rfl⟩
+
+example : Ring [3, 5, 9] ∧ ∀ x, x ∈ [3, 5, 9] ↔ x = 5 ∨ x ∈ [3, 9] :=
+  ⟨⟨by simp, by simp [Asc], by simp⟩, fun x => by simp; omega⟩
+
+end AbstractExample
 
 end PV.C02
